@@ -179,10 +179,8 @@ func wrapsParam(fn *ssa.Function, idx int, depth int) bool {
 				return true
 			}
 			if al, ok := w.(*ssa.Alloc); ok {
-				for _, v := range allocFieldStores(al) {
-					if resRoot(v) == ssa.Value(prm) {
-						return true
-					}
+				if storedInStruct(al, prm, 0) {
+					return true
 				}
 			}
 			// result of another wrapping callee
@@ -202,6 +200,61 @@ func wrapsParam(fn *ssa.Function, idx int, depth int) bool {
 					}
 				}
 			}
+		}
+	}
+	return false
+}
+
+// storedInStruct: prm is stored into a field of the struct built in al, directly or inside a
+// struct-valued field that is itself built in a local (operands := pair{a, b}; &iter{pair: operands}).
+func storedInStruct(al *ssa.Alloc, prm ssa.Value, depth int) bool {
+	if depth > 3 {
+		return false
+	}
+	for _, v := range allocFieldStores(al) {
+		if resRoot(v) == prm {
+			return true
+		}
+		if u, ok := v.(*ssa.UnOp); ok && u.Op == token.MUL {
+			if a2, ok := u.X.(*ssa.Alloc); ok && storedInStruct(a2, prm, depth+1) {
+				return true
+			}
+		}
+	}
+	// fields of an embedded struct written in place: &iter{pair: pair{a, b}}
+	for _, ref := range *al.Referrers() {
+		if fa, ok := ref.(*ssa.FieldAddr); ok {
+			for _, r2 := range *fa.Referrers() {
+				if fa2, ok := r2.(*ssa.FieldAddr); ok {
+					for _, st := range storesTo(fa2) {
+						if resRoot(st.Val) == prm {
+							return true
+						}
+					}
+				}
+			}
+		}
+	}
+	return false
+}
+
+// isCloserAggregate: a named struct type that is not itself an iterator/reader but owns some and
+// closes them: it has a Close method and at least one resource field.
+func isCloserAggregate(t types.Type) bool {
+	if p, ok := t.Underlying().(*types.Pointer); ok {
+		t = p.Elem()
+	}
+	named, ok := types.Unalias(t).(*types.Named)
+	if !ok || !hasMethod(types.NewPointer(named), "Close") {
+		return false
+	}
+	st, ok := named.Underlying().(*types.Struct)
+	if !ok {
+		return false
+	}
+	for i := 0; i < st.NumFields(); i++ {
+		if ft := st.Field(i).Type(); isResourceType(ft) || isResourceSlice(ft) {
+			return true
 		}
 	}
 	return false
@@ -597,18 +650,26 @@ func ruleOwnWrap(r *Run, rels []string) {
 				continue
 			}
 			st, ok := named.Underlying().(*types.Struct)
-			if !ok || !isResourceType(named) {
+			if !ok || !(isResourceType(named) || isResourceType(types.NewPointer(named)) || isCloserAggregate(named)) {
 				continue
 			}
 			var resFields []string
 			sliceField := map[string]bool{}
+			aggField := map[string]bool{}
+			embedded := map[string]types.Type{}
 			for i := 0; i < st.NumFields(); i++ {
 				ft := st.Field(i).Type()
+				if st.Field(i).Embedded() {
+					embedded[st.Field(i).Name()] = ft
+				}
 				if isResourceType(ft) {
 					resFields = append(resFields, st.Field(i).Name())
 				} else if isResourceSlice(ft) {
 					resFields = append(resFields, st.Field(i).Name())
 					sliceField[st.Field(i).Name()] = true
+				} else if isCloserAggregate(ft) {
+					resFields = append(resFields, st.Field(i).Name())
+					aggField[st.Field(i).Name()] = true
 				}
 			}
 			if len(resFields) == 0 {
@@ -620,7 +681,28 @@ func ruleOwnWrap(r *Run, rels []string) {
 				rule := map[string]string{"Close": "OWN-WRAP", "Err": "ERR-CHAIN"}[m]
 				o := r.Ob(rule, shortRel(rel)+"."+name+"."+m, m+"() reaches "+m+"() of every wrapped iterator/reader on every path and returns/aggregates its result")
 				if fn == nil {
-					o.Fail("-", "method not found")
+					// promoted from an embedded owner: that owner's own obligations cover its fields;
+					// this type must then have no other resource of its own
+					from := ""
+					for en, et := range embedded {
+						if hasMethod(et, m) || hasMethod(types.NewPointer(et), m) {
+							from = en
+						}
+					}
+					var rest []string
+					for _, f := range resFields {
+						if f != from && !(m == "Err" && !fieldHasMethod(st, f, "Err")) {
+							rest = append(rest, f)
+						}
+					}
+					switch {
+					case from == "":
+						o.Fail("-", "method not found")
+					case len(rest) > 0:
+						o.Fail("-", "%s() is promoted from the embedded %s and does not reach field(s) %v", m, from, rest)
+					default:
+						o.OK("promoted from the embedded %s, which owns all wrapped resources", from)
+					}
 					continue
 				}
 				good := true
@@ -648,6 +730,12 @@ func ruleOwnWrap(r *Run, rels []string) {
 						}
 						if fname, base, ok := loadOfField(root); ok && fname == f && base == ssa.Value(fn.Params[0]) {
 							call = cl
+						}
+						// an owned aggregate is closed through its address: i.pair.Close()
+						if aggField[f] {
+							if fname, base, ok := fieldNameOf(root); ok && fname == f && base == ssa.Value(fn.Params[0]) {
+								call = cl
+							}
 						}
 					}
 					if call == nil {
@@ -696,6 +784,11 @@ func fieldHasMethod(st *types.Struct, field, method string) bool {
 			t := st.Field(i).Type()
 			if s, ok := t.Underlying().(*types.Slice); ok {
 				t = s.Elem()
+			}
+			if _, isPtr := t.Underlying().(*types.Pointer); !isPtr {
+				if _, isIface := t.Underlying().(*types.Interface); !isIface && hasMethod(types.NewPointer(t), method) {
+					return true
+				}
 			}
 			return hasMethod(t, method)
 		}
